@@ -29,7 +29,7 @@ CLAIMED = {
          "Trusted: bindings come from the construction of the pattern (C02 decides that the implementation binds the same spans); spaces-only indentation, lines within the 512-byte look-behind.", "DESIGN.md §5 C07"),
  "C08": ("proptest: generated (fixable rule, text) pairs through CLI JSON (reference), sg test -U snapshots, the library replace calls and LSP quick-fix / fix-all actions (differential across front ends)",
          "Randomised exploration through the real binaries and the library: 300 (quick) to 4x10^3 (thorough) cases over 9 fix shapes (expansions, trimmed punctuation, transformed variables, multi-line, object form); each front end's edit (byte range + text) must equal the one `sg scan --json` announces.",
-         "Trusted: the JSON output as reference (C16/C06 check it); harness LSP client; scan -U is compared by C18.", "DESIGN.md §5 C08"),
+         "Trusted: the JSON output as reference (C16/C06 check it); harness LSP client; the file written by scan -U is compared with the same edits spliced by the harness.", "DESIGN.md §5 C08"),
  "C09": ("proptest: generated projects and LSP notification histories (model-based: URI -> highest version/text) through the real CLI, test runner and language server; oracle = equality of normalised finding multisets across front ends + history invariant on the last publication",
          "Randomised exploration through the real binaries: 120 (quick) to 2x10^3 (thorough) projects, each compared across 7 front ends (3 JSON styles, stdin, GitHub format, sg test verdicts both ways, LSP didOpen) plus an LSP history of up to 17 notifications (sequential and burst delivery) checked against the model's highest version.",
          "Trusted: the JSON stream output as the reference multiset (C16 checks it against the bytes); harness-side LSP client; burst delivery explores, but does not enumerate, handler interleavings.", "DESIGN.md §5 C09"),
@@ -84,6 +84,12 @@ EXTRA_NOTE = {
  "C15": " HTML hosts with embedded css/js documents are part of the projects (exit status with findings in an earlier document).",
  "C16": " Matches that include the CR of a CRLF ending and lines with bare CRs are generated on purpose.",
  "C17": " One run of some trees stalls about one file in eight for 1.2 s through the second hook (slow files).",
+ "C08": " `scan -U` is one of the front ends (the written file must equal the text with the announced edits); sources may start with blank lines, a BOM or a comment.",
+ "C09": " Rules with a fix and nested matches (overlapping replaced ranges) are part of the projects.",
+ "C20": " The quick tier is exhaustive to length 5 for spellings and An+B formulas.",
+ "C02": " The shape precondition is judged independently of the implementation (own sigil substitution + raw tree-sitter parse) whenever the converted pattern tree disagrees; candidates with rare textual features are boosted.",
+ "C01": " `kind: ERROR` is in the kind pool of the generated rules.",
+ "C03": " Candidates include copies of the origin with the abstracted parts deleted; the length clause is asserted at token granularity (DESIGN 12.8).",
  "C18": " Projects include three-document HTML files (html + css + js fixes) and used / unused suppression comments.",
 }
 for i in FUZZABLE:
